@@ -36,3 +36,7 @@ def run(ctx):
     # every class must compile the pattern of its own structure(): what the accepted language rests on
     from ..rules_ast import persistent_state_rule
     ctx.guard(persistent_state_rule, ctx, "C12.own-pattern")
+    # pattern symmetry says which records are accepted only if the search decides acceptance by the compiled pattern alone
+    run_kernels(ctx, ["K2"], "C12")
+    from ..rules_misc import text_consumers_rule
+    ctx.guard(text_consumers_rule, ctx, "C12.text-consumers")
